@@ -218,18 +218,21 @@ CLAIMED['C14'] = dict(
     technique='Lean 4 result-kind theorems (partial) + exception-class correspondence over the enumerated function/argument-shape table')
 
 CLAIMED['C01'] = dict(
-    text='Lean 4 executable model of the front end: a maximal-munch scanner (two modes, word-boundary flags) and a recursive-descent parser '
-         'with one function per grammar rule producing untyped trees, then the proved constructors (build_WT, build_quantOK). The '
-         'implementation is judged against the tree each text was rendered from (through the model build, independent of the model parser) and '
-         'compared with the model parser on the text itself, over random layouts, minimal/full/redundant parentheses, keyword-like names, '
-         'non-canonical numbers and token-level mutations; 0 disagreements with Lark on ~1.5k texts per run including the LALR-merged-lookahead '
-         'corner (`xs[0]!= 3`). Proved: keyword recognition is exact-word and boundary-sensitive (isKw_exact); every tree the expression parser can produce is '
-         'produced from the token sequence of its printed form (parse_toks_roundtrip, Props/C06b). The grammar-level theorems (parse_complete / '
-         'parse_sound for minimal and redundant parentheses, unambiguity; prototyped on a miniature grammar) are not ported to the full grammar.',
-    design_ref='DESIGN.md §6 C01',
-    note='PARTIAL: the relation "text renders tree" is realised by the harness renderer, not yet by a Lean inductive relation with a completeness '
-         'proof for the model parser. Lark itself is modelled, not verified.',
-    technique='Lean 4 executable parser model + correspondence on rendered trees and mutated texts (proof of the parser partial)')
+    text='Lean 4 theorem parse_complete (Props/C01b): for every token sequence that the declarative grammar Renders (Spec/Grammar.lean: the '
+         'rules of predicates.lark over tokens - left-recursive binary levels, non-associative comparisons, prefix not / minus, quantifiers, '
+         'accessor chains, calls, sets, ranges, optional and redundant parentheses) reads as a condition with tree e, the recursive-descent '
+         'parser model returns exactly e and consumes all tokens, with the fuel the model gives itself; by induction on derivations with a '
+         'continuation invariant for the loops. The model (maximal-munch scanner with word-boundary flags + parser, one function per grammar '
+         'rule, then the proved constructors build_WT / build_quantOK) is tied to the implementation by correspondence: the implementation '
+         'is judged against the tree each text was rendered from (through the model build, independent of the model parser) and compared '
+         'with the model parser on the text itself, over random layouts, minimal/full/redundant parentheses, keyword-like names, '
+         'non-canonical numbers and token-level mutations; 0 disagreements with Lark on ~2k texts per run including the LALR-merged-lookahead '
+         'corner (`xs[0]!= 3`). Also proved: keyword recognition is exact-word and boundary-sensitive (isKw_exact).',
+    design_ref='DESIGN.md §0.1, §6 C01',
+    note='PARTIAL: completeness (grammar tree => parser result) is proved at token level; soundness / unambiguity (parser result => grammar '
+         'tree), the scanner and the agreement of the Lean grammar relation with the .lark file are tied by correspondence. Lark itself is '
+         'modelled, not verified.',
+    technique='Lean 4 proof of parser completeness against a declarative grammar (induction on derivations, continuation invariant) + correspondence on rendered trees and mutated texts')
 CLAIMED['C06'] = dict(
     text='Lean 4 theorem parse_toks_roundtrip (Props/C06b): for every expression tree the parser can produce (Raw.printable, decidable; every '
          'node kind, any depth) the recursive-descent parser model applied to the token sequence of the printed form (Raw.toks) returns exactly '
